@@ -205,6 +205,10 @@ def build_cases(tier: str) -> List[Dict[str, Any]]:
     for _ in range(m):
         a, b, c = rng.choice(A1), rng.choice(A1), rng.choice(A1)
         cases.append(case_of(next(cid), [SETUP + [a], [b, c]]))
+    # (2b) a series of short subroutines of the same length (different instructions) run one after the other by one
+    #      application; each subroutine object is gone before the next one is made, as with subroutines arriving as messages
+    for _ in range(m // 2):
+        cases.append(case_of(next(cid), [SETUP + [rng.choice(A1)]] + [[rng.choice(A1), rng.choice(A1)] for _k in range(7)]))
     # (3) random programs, unstructured jumps
     m = 6000 if tier == "thorough" else 800
     for _ in range(m):
